@@ -91,6 +91,7 @@ pub fn blocks(thorough: bool) -> Vec<Block> {
         b.push(Block::new(u_kind_triples(), vec![Cfg::new(0), Cfg::new(X), Cfg::new(R), Cfg::new(E | X)], "{}, x, r, e+x"));
         b.push(Block::new(u_long_rep(30), vec![Cfg::new(R), Cfg::new(R | NA | NE)], "r, r+na+ne"));
         b.push(Block::new(u_nested_rep(), vec![Cfg::new(R), Cfg::new(R | X)], "r, r+x"));
+        b.push(Block::new(u_long_literal_at(), vec![Cfg::new(X), Cfg::new(0), Cfg::new(X | NA | NE)], "x, {}, x+na+ne"));
         b.push(Block::new(u_prefix_suffix2(4), vec![Cfg::new(D), Cfg::new(R), Cfg::new(W | R)], "d, r, w+r"));
         b.push(Block::new(u_feature_rich(), full.clone(), "Lambda_full (no u,c): all 8,192 combinations"));
         b.push(Block::new(u_long_runs(40), vec![Cfg::new(R), Cfg::new(R | W), Cfg::new(0)], "r, r+w, {}"));
@@ -155,18 +156,21 @@ pub fn scalars(ctx: &Ctx) {
     });
     ctx.run.space(json!({"universe": if thorough {"U_scalar (all 1,112,064 scalars)"} else {"U_scalar slice: boundaries of all class/case tables +-1, one per 256-block"},
         "sets": list.len(), "settings": "{}, i, e, x, g, r", "settings_count": cfgs.len(), "cases": list.len() * cfgs.len()}));
-    if thorough {
-        // each scalar in contexts c, cc, ccc, ac, ca
-        let cfgs: Vec<Cfg> = [0, R, E | R].iter().map(|b| Cfg::new(*b)).collect();
+    {
+        // each scalar in contexts cc, ccc, ac, ca, cxcy, xcyc (twice at distance two: a code point that some stage
+        // uses as an internal separator or sentinel shows only when it occurs more than once, apart). Thorough: every
+        // scalar; quick: every scalar below U+0300 and the boundary slice.
+        let cfgs: Vec<Cfg> = if thorough { [0, R, E | R].iter().map(|b| Cfg::new(*b)).collect() } else { vec![Cfg::new(R)] };
+        let list: Vec<char> = if thorough { list.clone() } else { (0u32..0x300).filter_map(char::from_u32).chain(list.iter().copied()).collect() };
         crate::ev::par_for(list.len(), |i| {
             let c = list[i];
-            for s in [format!("{c}{c}"), format!("{c}{c}{c}"), format!("a{c}"), format!("{c}a")] {
+            for s in [format!("{c}{c}"), format!("{c}{c}{c}"), format!("a{c}"), format!("{c}a"), format!("{c}x{c}y"), format!("x{c}y{c}")] {
                 let tcs = vec![s];
                 for cfg in &cfgs {
                     check_case(ctx, &tcs, cfg);
                 }
             }
         });
-        ctx.run.space(json!({"universe": "U_scalar_ctx: cc, ccc, ac, ca for every scalar c", "sets": list.len() * 4, "settings": "{}, r, e+r", "cases": list.len() * 12}));
+        ctx.run.space(json!({"universe": if thorough {"U_scalar_ctx: cc, ccc, ac, ca, cxcy, xcyc for every scalar c"} else {"U_scalar_ctx: cc, ccc, ac, ca, cxcy, xcyc for every scalar below U+0300 and the boundary slice"}, "sets": list.len() * 6, "settings": if thorough {"{}, r, e+r"} else {"r"}, "cases": list.len() * 6 * cfgs.len()}));
     }
 }
